@@ -221,6 +221,14 @@ Init ==
   /\ pend = <<>> /\ allOk = TRUE
 
 Spec == Init /\ [][Next]_vars
+\* liveness (thorough tier): the loops' work is done under weak fairness (no callback re-arms itself here, so the
+\* callback graph has no cycles and weak fairness is enough, cf. TcpclSession)
+FairSpec == Spec /\ WF_vars(Drain) /\ WF_vars(Accept) /\ WF_vars(DropQueued)
+                 /\ \A c \in 1..MaxConn : WF_vars(Establish(c))
+                 /\ \A w \in Agents, d \in 1..MaxConn : WF_vars(TermDone(w, d)) /\ WF_vars(PeerGone(w, d))
+\* a shutdown or stop request always ends with the agent stopped and none of its connections open anywhere
+EndLive == \A w \in Agents : (shutReq[w] \/ stopReq[w]) ~> (stopped[w] >= 1 /\ hdl[w] = <<>> /\ sockOpen[w] = {})
+PeerLive == \A w \in Agents : (shutReq[w] \/ stopReq[w]) ~> (\A c \in 1..MaxConn : c \in sockOpen[Other(w)] => c \in sockOpen[w])
 OK == allOk
 \* the event loops have nothing left to do (users might still call something)
 Quiescent == pend = <<>> /\ ~ENABLED Loop
